@@ -17,6 +17,6 @@ open BeffVerif.C05
 #print axioms BeffVerif.C05Flat.diff_atoms
 #print axioms BeffVerif.C05Flat.intersect_first
 #print axioms BeffVerif.C05Tuple.closed_tuple_subtype_iff_inclusion
-#print axioms BeffVerif.C05Tuple.inhabitedNot_closed
+#print axioms BeffVerif.C05Tuple.inhabitedNot_one
 #print axioms BeffVerif.C05Tuple.every_shape
-#print axioms BeffVerif.C05Tuple.covered_tuple_iff
+#print axioms BeffVerif.C05Tuple.covered_list_iff
